@@ -8,11 +8,15 @@ import json, os, subprocess, sys
 IN = "/verif/.work/seeded_in"
 OUT = "/verif/seeded"
 EXTRA = {"C01-1": ["C15"], "C01-2": ["C05"], "C12-1": ["C07"], "C12-2": [], "C12-3": [], "C03-1": ["C01"], "C03-2": ["C15"], "C09-2": ["C01"],
-         "C04-1": ["C03"], "C05-2": ["C01"], "C10-2": ["C02"], "C07-2": ["C15"], "C10-1": ["C05"], "C05-1": ["C09"]}
-THOROUGH = {"C08-2": ["C08"]}
+         "C04-1": ["C03"], "C05-2": ["C01"], "C10-2": ["C02"], "C07-2": ["C15"], "C10-1": ["C05"], "C05-1": ["C09"],
+         "C01-I1": ["C09"], "C01-I2": ["C02", "C04"], "C05-I2": ["C10"], "C09-K1": ["C14"], "C10-K2": ["C05"], "C04-J2": ["C03"],
+         "C06-M2": ["C13"], "C15-N2": ["C02"], "C12-L2": ["C05"], "C04-J1": ["C01"]}
+THOROUGH = {"C08-2": ["C08"], "C03-J2": ["C03"], "C10-K1": ["C10"], "C10-1": ["C10"], "C05-1": ["C05"], "C03-1": ["C03"]}
 
 
 def main():
+    if sys.argv[1:] == ["--table"]:
+        return table()
     ids = sys.argv[1:] or sorted(x for x in os.listdir(OUT) if os.path.exists(f"{OUT}/{x}/confirm.json"))
     for id_ in ids:
         if not os.path.exists(f"{OUT}/{id_}/confirm.json"):
@@ -41,7 +45,6 @@ def main():
                      "checks": res, "caught_by": sorted(k for k, v in res.items() if v["caught"])})
         json.dump(keep, open(f"{OUT}/{id_}/meta.json", "w"), indent=1)
         print(id_, {k: ("CAUGHT" if v["caught"] else "missed") for k, v in res.items()}, flush=True)
-    table()
 
 
 def table():
